@@ -134,6 +134,42 @@ def _filter_real_worker(args):
     return out
 
 
+def _edge_c07_worker(args):
+    """C07 through the EDGE wrappers (implementation only): a cancel presented to one Buffer / Fleet with a token another edge
+    issued is a cancel of an unknown token -- RuntimeError, both edges untouched"""
+    n, seed = args
+    import simpy
+    rng = random.Random(seed)
+    out = dict(evals=0, viol=[])
+    for _ in range(n):
+        env = simpy.Environment()
+        kind = rng.choice(["buffer", "fleet"])
+        mk = (lambda nm: common.load("edges.buffer").Buffer(env, nm, capacity=rng.choice([1, 2, 3]), delay=0)) if kind == "buffer" else \
+             (lambda nm: common.load("edges.fleet").Fleet(env, nm, capacity=rng.choice([2, 3]), delay=3, transit_delay=1))
+        a, b = mk("A"), mk("B")
+        side = rng.choice(["put", "get"])
+        toks = [getattr(b, "reserve_" + side)() for _ in range(rng.choice([1, 2, 4]))]     # granted and waiting ones
+        own = [getattr(a, "reserve_" + side)() for _ in range(rng.choice([0, 1, 2]))]
+        t = rng.choice(toks)
+        snap = lambda e: tuple(tuple(id(x) for x in getattr(e.inbuiltstore, f)) for f in
+                               ("reserve_put_queue", "reservations_put", "reserve_get_queue", "reservations_get"))
+        before = (snap(a), snap(b))
+        try:
+            getattr(a, "reserve_%s_cancel" % side)(t)
+            res = "accepted"
+        except RuntimeError:
+            res = "RuntimeError"
+        except Exception as ex:  # noqa
+            res = type(ex).__name__
+        out["evals"] += 1
+        if res != "RuntimeError" or (snap(a), snap(b)) != before:
+            out["viol"].append(dict(**{"class": "edge-foreign-cancel"}, message="[edge/%s] reserve_%s_cancel on edge A with a token issued by edge B: %s%s" %
+                                    (kind, side, res, "" if (snap(a), snap(b)) == before else "; a reservation list changed"),
+                                    case=dict(model="edge-foreign-cancel", kind=kind, side=side, n_b=len(toks), n_a=len(own))))
+    out["viol"] = out["viol"][:2]
+    return out
+
+
 def load_corpus(model, kind):
     out = []
     anykind = kind is None
@@ -168,8 +204,9 @@ def run_l1(pid, tier, seed):
         a3 = pool.map_async(_filter_real_worker, rjobs)
         # C01 on conveyor edges inside factories (the edge class's own store): never more items on the belt than its capacity
         a4 = pool.map_async(_belt_factory_worker, [(pid, (160 if tier == "quick" else 4800) // 4, seed * 739 + k) for k in range(4)] if pid == "C01" else [])
+        a5 = pool.map_async(_edge_c07_worker, [((200 if tier == "quick" else 8000) // 2, seed * 389 + k) for k in range(2)] if pid == "C07" else [])
         outs = a1.get() + a2.get() + a3.get()
-        couts = a4.get()
+        couts = a4.get() + a5.get()
     res = dict(evaluations=0, distinct_nontrivial=0, samples=[], traces=0, disagreements=[], violations=[], known=[],
                distribution={})
     tags, ops, errs = collections.Counter(), collections.Counter(), collections.Counter()
@@ -863,6 +900,9 @@ def replay(pid, path):
         v = [x for x in factory_oracle.check(case, r["impl"]) if x[0] == pid]
         print("oracle:", v, "first disagreement:", r["dis"])
         return 1 if v or r["dis"] else 0
+    if model == "edge-foreign-cancel":
+        print("directed scenario (two %s edges, reserve_%s_cancel on one with a token of the other): re-run the check to reproduce" % (case["kind"], case["side"]))
+        return 1
     if model == "storep-real":
         msg = storep.replay_real(case)
         print("oracle:", msg)
